@@ -59,6 +59,7 @@ Section Spec.
     | DRequired => match ft with TOpt _ => true | _ => false end
     | DDefault => is_some (default_of ft)
     | DConst c => is_some (deser valid ft c)
+    | DStrict => false
     end.
 
   Definition not_any (s : sty) : bool := match s with SAnyJson => false | _ => true end.
